@@ -76,6 +76,7 @@ FamilyProps(fam) ==
       [] fam = "lin" -> {"C20", "C13", "C06", "C08"}
       [] fam = "bil" -> {"C20", "C13", "C06", "C08"}
       [] fam = "spl" -> {"C13", "C06", "C08"}
+      [] fam = "out" -> {"C17", "C09"}
       [] OTHER -> {}
 
 ----------------------------------------------------------------------------
@@ -390,7 +391,10 @@ DoQ1(ev) ==
                     THEN {<<"obj", <<ev.id, ((k - 1) % L) + 1, ev.q.v[((k - 1) \div L) + 1]>>, res.v[k]>> : k \in 1..N}
                     ELSE {}
         famPairs == IF judgeEl THEN UNION {J[k].memo : k \in 1..N} ELSE {}
-        pairs == objPairs \cup famPairs
+        \* the outcome of a call is part of its answer: same interpolator, same query contents => same outcome,
+        \* whatever the history, thread or entry point (calls with a wrongly shaped buffer are keyed apart)
+        outPairs == {<<"out", <<ev.id, ev.q.v, bufOk>>, ev.out>>}
+        pairs == objPairs \cup famPairs \cup outPairs
         confl == MemoConflicts(pairs)
         vMemo == LET cs == SeqOfSet(confl)
                  IN [i \in 1..Len(cs) |-> V(FamilyProps(cs[i][1]), "MEMO|" \o cs[i][1] \o "|" \o ev.en, <<cs[i][2]>>)]
@@ -549,7 +553,8 @@ DoQ2(ev) ==
                     THEN {<<"obj", <<ev.id, ((k - 1) % L) + 1, ev.q.v[((k - 1) \div L) + 1], ev.q2.v[((k - 1) \div L) + 1]>>, res.v[k]>> : k \in 1..N}
                     ELSE {}
         famPairs == IF judgeEl THEN UNION {J[k].memo : k \in 1..N} ELSE {}
-        pairs == objPairs \cup famPairs
+        outPairs == {<<"out", <<ev.id, ev.q.v, ev.q2.v, ev.q.s = ev.q2.s, bufOk>>, ev.out>>}
+        pairs == objPairs \cup famPairs \cup outPairs
         confl == MemoConflicts(pairs)
         vMemo == LET cs == SeqOfSet(confl)
                  IN [i \in 1..Len(cs) |-> V(FamilyProps(cs[i][1]), "MEMO|" \o cs[i][1] \o "|" \o ev.en, <<cs[i][2]>>)]
